@@ -23,7 +23,7 @@ def run(chk):
         "the Coq models mirror src/metadata/mod.rs and cuesheet.rs function by function (checked by differential runs in both profiles, not proved)",
         "text is modelled as code points with std's lines/trim/split_once/integer FromStr; fidelity of the white-space class against std on exotic Unicode is by correspondence only",
         "UTF-8 validity is a Section variable of the reader theorems; the instance Utf8.v is tied by correspondence",
-        "absence of hangs: every model function is a structural Fixpoint and fuel exhaustion is one of the excluded Panic outcomes; the allocation bound is a runtime check of the harness (1 MiB + 64 bytes per input byte), not a theorem",
+        "absence of hangs: every model function is a structural Fixpoint and fuel exhaustion is one of the excluded Panic outcomes; the allocation bound is a runtime check of the harness (64 MiB + 64 bytes per input byte; the largest declared-length allocation is the SEEKTABLE pre-allocation of at most ~22 MiB), not a theorem",
         "usize is 64 bits",
     ]
     proof_ok = mc.proof_stage(chk, requires=["FlacMeta.Props_C12", "FlacMeta.Pins"], theorems=THEOREMS, files=FILES)
